@@ -4,6 +4,7 @@
 # kept as patch_original.diff.  Conflicts are reported for manual rebasing.  /repo must be clean.
 cd /repo; [ -z "$(git status --short)" ] || { echo "/repo is not clean"; exit 2; }
 for d in /verif/seeded/C*-m*; do
+  grep -q "\"obsolete\"" $d/meta.json && continue
   git apply --check $d/patch.diff 2>/dev/null && continue
   if git apply --3way $d/patch.diff >/dev/null 2>&1 && [ -z "$(git diff --name-only --diff-filter=U)" ]; then
     [ -f $d/patch_original.diff ] || cp $d/patch.diff $d/patch_original.diff
